@@ -11,6 +11,8 @@ for f in sorted(glob.glob(os.path.join(ROOT, "evidence", "C*.json"))):
     e = json.load(open(f))
     c = e["coverage"]
     be = "; ".join(f"{k} ({v['count'] if isinstance(v, dict) else v})" for k, v in sorted(c.get("by_backend", {}).items(), key=lambda kv: -(kv[1]['count'] if isinstance(kv[1], dict) else kv[1])))
-    bs = "; ".join(b["bound"].split(";")[0][:110] for b in c.get("bounded_standins") or []) or "—"
+    bs = "; ".join((b.get("bound") or "").split(";")[0][:90] for b in c.get("bounded_standins") or []) or "—"
+    if len(bs) > 200:
+        bs = bs[:197] + "…"
     ok = "" if c["obligations"] == c["discharged"] else f" ({c['discharged']} discharged)"
     print(f"| {e['property_id']} | {e['level']} | {c['obligations']}{ok} | {round(e['wall_s'])} s | {be} | {bs} |")
